@@ -1122,10 +1122,18 @@ func resolveFrom(v ssa.Value, stop ssa.Instruction, cut map[Edge]bool) []ssa.Val
 			push(b)
 		}
 	}
+	onStack := map[*ssa.Phi]bool{}
+	leaf := map[*ssa.Phi]bool{}
 	var rec func(v ssa.Value, d int)
 	rec = func(v ssa.Value, d int) {
 		if v != Zero && v != nil {
 			if seen[v] {
+				// a restricted phi reached again through a cycle: along that path the variable still holds
+				// the value it had when the walk started at stop, which is the phi itself (opaque)
+				if ph, isPhi := v.(*ssa.Phi); isPhi && reach != nil && onStack[ph] && !leaf[ph] {
+					leaf[ph] = true
+					out = append(out, v)
+				}
 				return
 			}
 			seen[v] = true
@@ -1136,6 +1144,8 @@ func resolveFrom(v ssa.Value, stop ssa.Instruction, cut map[Edge]bool) []ssa.Val
 		}
 		switch x := v.(type) {
 		case *ssa.Phi:
+			onStack[x] = true
+			defer func() { onStack[x] = false }()
 			// a phi evaluated before stop (its block is not re-entered after stop) keeps every incoming value
 			restricted := reach != nil && reach[x.Block()] && x.Block() != stop.Block()
 			for i, e := range x.Edges {
